@@ -704,10 +704,12 @@ def run(tier: str, seed: int) -> dict:
     n_sub4 = n_negfrac = n_discr = 0  # subpix-4 volumes / with a plane d < 0, frac(d) in {1/4, 3/4} / that tell the shifts apart
     found = set()
     sampled = sampled4 = 0
-    work = [(rnd, cfg) for _ in range(passes) for rnd in range(n_rounds) for cfg in configs]
-    for rnd, (offset, subpix, distance, intensity) in work:
+    work = [(ps, rnd, cfg) for ps in range(passes) for rnd in range(n_rounds) for cfg in configs]
+    for ps, rnd, (offset, subpix, distance, intensity) in work:
         if time.time() > deadline:
             break
+        if subpix == 4 and not quick and ps % 2 == 1:
+            continue  # thorough: the (4 times more expensive) quarter-pixel volumes take part in every other pass
         shapes = shapes_of[(offset, subpix)]
         if rnd >= len(shapes):
             continue
@@ -720,8 +722,8 @@ def run(tier: str, seed: int) -> dict:
                              maxwidth=4 if wide else 2)
         else:
             case = make_case(rng, n0, n1, offset, subpix, distance, intensity)
-        # (quick tier, subpix 4: 3 of the up to 9 planes are also aggregated alone, to stay within the wall budget)
-        fails, info = check_case(case, planes_alone=True, alone_max=3 if (quick and subpix == 4) else None)
+        # (subpix 4: 3 (quick) / 5 (thorough) of the up to 9 / 17 planes are also aggregated alone: wall budget)
+        fails, info = check_case(case, planes_alone=True, alone_max=None if subpix != 4 else (3 if quick else 5))
         if subpix == 4:
             n_sub4 += 1
             n_negfrac += info.get("negfrac", 0) > 0
@@ -765,9 +767,9 @@ def run(tier: str, seed: int) -> dict:
              "%s: %d subpix-4 volumes, %d with a plane d < 0 whose fraction d - floor(d) is 1/4 or 3/4, %d of them able to "
              "tell the pairing with the frac(d)-shifted right image from the pairing with the (1 - frac(d))-shifted one "
              "(the expected value of a checked cell differs)"
-             % (n_agg, seed, tier, " (subpix 4: first, middle and last plane)" if quick else "", n_exhaustive,
+             % (n_agg, seed, tier, " (subpix 4: %d evenly spaced planes)" % (3 if quick else 5), n_exhaustive,
                 n_kernel_eval - n_exhaustive, "" if quick else " (4 wide for 30%)", n_sub4, n_negfrac, n_discr))
-    rule = ("cases drawn with numpy default_rng(seed), %d passes over the shapes, smallest first, one volume for each "
+    rule = ("cases drawn with numpy default_rng(seed), %d passes over the shapes (subpix 4: every other pass in the thorough tier), smallest first, one volume for each "
             "of the 48 (offset, subpix, distance, intensity) configurations and each shape, stopped early only if the wall "
             "budget is exhausted; a case is distinct by the "
             "bytes of all its inputs; an aggregation case is non-trivial when at least one checked output (non-NaN input cost, "
